@@ -993,6 +993,7 @@ Corollary C04_label_invariant_matches c parent sel ds ds' :
                                sel_matches sel ls = true) ds'.
 Proof.
   intros Hset Henf. pose proof (C04_label_invariant_partial c parent sel ds ds' Hset Henf) as H.
+  clear Hset Henf.
   induction H as [|d d' ds ds' [Hs [Hm _]] _ IH]; [apply Forall_nil|].
   apply Forall_cons; [|exact IH]. exists (get_labels d'). repeat split; assumption.
 Qed.
@@ -1003,13 +1004,14 @@ Corollary C04_label_invariant_uid c parent sel ds ds' :
   Forall2 (uid_label_ok parent) ds ds'.
 Proof.
   intros Hset Hgen Henf. pose proof (C04_label_invariant_partial c parent sel ds ds' Hset Henf) as H.
+  clear Hset Henf.
   induction H as [|d d' ds ds' [_ [_ Hu]] _ IH]; [apply Forall2_nil|].
   apply Forall2_cons; [apply Hu; exact Hgen | exact IH].
 Qed.
 
 (* the length is preserved unconditionally *)
 Theorem C04_label_length c parent sel ds ds' :
-  enforce_labels c parent sel ds = Some ds' -> length ds' = length ds.
+  enforce_labels c parent sel ds = Some ds' -> List.length ds' = List.length ds.
 Proof.
   revert ds'. induction ds as [|d ds IH]; intros ds' Henf.
   - cbn [enforce_labels] in Henf. injection Henf as Henf. subst ds'. reflexivity.
@@ -1018,7 +1020,7 @@ Proof.
     destruct (label_step c parent d ls) as [d' ls'].
     destruct (sel_matches sel ls'); [|discriminate].
     destruct (enforce_labels c parent sel ds) as [r|]; [|discriminate].
-    injection Henf as Henf. subst ds'. cbn [length]. f_equal. apply IH. reflexivity.
+    injection Henf as Henf. subst ds'. cbn [List.length]. f_equal. apply IH. reflexivity.
 Qed.
 
 (* without generateSelector nothing is rewritten, and the statement holds as worded *)
@@ -1040,7 +1042,7 @@ Proof.
       destruct (sel_matches sel ls); [|discriminate].
       destruct (enforce_labels c parent sel ds) as [r|]; [|discriminate].
       injection Henf as Henf. subst ds'. f_equal. apply IH. reflexivity. }
-  split; [exact Heq|]. subst ds'.
+  split; [exact Heq|]. subst ds'. clear Hset Henf.
   induction H as [|d d' ds ds' [Hs [Hm _]] _ IH]; [apply Forall_nil|].
   apply Forall_cons; [split; assumption | exact IH].
 Qed.
@@ -1063,3 +1065,43 @@ Proof.
     + apply AC_ret.
     + intros e. reflexivity.
 Qed.
+
+Print Assumptions claim_other_controller.
+Print Assumptions claim_ours_match.
+Print Assumptions claim_ours_nomatch_parent_deleting.
+Print Assumptions claim_ours_nomatch_release.
+Print Assumptions claim_orphan_parent_deleting.
+Print Assumptions claim_orphan_nomatch.
+Print Assumptions claim_orphan_deleting.
+Print Assumptions claim_orphan_adopt.
+Print Assumptions claim_adopt_iff.
+Print Assumptions claim_release_iff.
+Print Assumptions claim_keep_iff.
+Print Assumptions claim_never_steals.
+Print Assumptions remove_owner_ref_In.
+Print Assumptions remove_owner_ref_absent.
+Print Assumptions add_owner_ref_others.
+Print Assumptions add_owner_ref_keeps.
+Print Assumptions add_owner_ref_from.
+Print Assumptions add_owner_ref_contains.
+Print Assumptions add_owner_ref_fresh.
+Print Assumptions add_owner_ref_uids.
+Print Assumptions add_owner_ref_NoDup.
+Print Assumptions hist_post_run.
+Print Assumptions atomic_update_hist.
+Print Assumptions C04_adopt_first_asks.
+Print Assumptions C04_adopt_refused_no_call.
+Print Assumptions C04_adopt_passed_no_recheck.
+Print Assumptions C04_adopt_one_after_recheck.
+Print Assumptions C04_adopt_passed_calls.
+Print Assumptions claim_one_triple.
+Print Assumptions C04_adopt_only_after_recheck.
+Print Assumptions C04_one_recheck_per_manager.
+Print Assumptions C04_one_recheck_in_run.
+Print Assumptions C04_label_invariant_counterexample.
+Print Assumptions C04_label_invariant_partial.
+Print Assumptions C04_label_invariant_matches.
+Print Assumptions C04_label_invariant_uid.
+Print Assumptions C04_label_length.
+Print Assumptions C04_label_invariant_no_gen.
+Print Assumptions finish_sync_labels_rejected.
